@@ -1,7 +1,7 @@
 (* C02 — Gateway message lifecycle is monotone and each message validates at most once.
    Statements only; proofs in Proofs/GatewayMsgs.v. *)
 From Coq Require Import String List NArith Lia.
-From Ax Require Import Lib.Bytes Lib.Mvx Model.Gateway Proofs.AListFacts Proofs.GatewayMsgs Gen.Generated.
+From Ax Require Import Lib.Bytes Lib.Mvx Model.Gateway Proofs.AListFacts Proofs.GatewayMsgs Proofs.GatewayAuth Model.GatewayCheck Model.GWUpgrade Proofs.GWUpgradeFacts Gen.Generated.
 Import ListNotations.
 Open Scope N_scope.
 
@@ -81,6 +81,27 @@ Print Assumptions c02_validate_spec.
 Print Assumptions c02_at_most_once.
 Print Assumptions c02_binding.
 
+(* histories that also contain UPGRADE transactions (Model/GWUpgrade.v): an upgrade never touches the message table, so the
+   life cycle is one-way along histories mixing the seven endpoint operations and upgrades in any order *)
+Section C02U.
+  Variable H : bytes -> bytes.
+  Variable verify : bytes -> bytes -> bytes -> bool.
+  Theorem c02_upgrade_keeps_messages : forall g now op srs g' ev,
+    gw_upgrade H g now op srs = Some (g', ev) -> g_messages g' = g_messages g.
+  Proof. exact (upgrade_messages H). Qed.
+  Theorem c02_step_monotone_with_upgrades : forall g o k, step_mono_at g (fst (ugstep H verify g o)) k.
+  Proof. exact (ugstep_mono H verify). Qed.
+  Theorem c02_executed_final_with_upgrades : forall g ops k,
+    mst g k = Some MExecuted -> mst (ugrun H verify g ops) k = Some MExecuted.
+  Proof. exact (ugrun_executed_final H verify). Qed.
+  Theorem c02_approved_keeps_hash_with_upgrades : forall g ops k h,
+    mst g k = Some (MApproved h) ->
+    mst (ugrun H verify g ops) k = Some (MApproved h) \/ mst (ugrun H verify g ops) k = Some MExecuted.
+  Proof. exact (ugrun_approved_stays H verify). Qed.
+End C02U.
+Print Assumptions c02_executed_final_with_upgrades.
+Print Assumptions c02_approved_keeps_hash_with_upgrades.
+
 Example pin_executed_marker : gen_gw_message_executed = render_mstate MExecuted := eq_refl.
 Example pin_states : gen_gw_message_states = ["NonExistent"; "Approved"; "Executed"]%string := eq_refl.
 Example pin_ccid : gen_gw_CrossChainId_fields = ["source_chain"; "message_id"]%string := eq_refl.
@@ -88,3 +109,6 @@ Example pin_events : gen_gw_events = ["contract_call_event"; "message_approved_e
 
 Check c02_at_most_once : forall H verify g ops k, (count_true H verify g ops k <= 1)%nat.
 Check c02_step_monotone : forall H verify g o k, step_mono_at g (fst (gstep H verify g o)) k.
+
+Check c02_executed_final_with_upgrades : forall H verify g ops k,
+    mst g k = Some MExecuted -> mst (ugrun H verify g ops) k = Some MExecuted.
